@@ -610,7 +610,12 @@ func (e *Engine) assignTo(st *State, lhs ast.Expr, v *Val, pos token.Pos) []*Sta
 			}
 			p.st.heap[loc] = v
 			p.st.written[loc] = true
-			e.emit(p.st, &Event{Kind: EvFieldWrite, Pos: pos, Path: loc, Value: v, Recv: p.v, Note: "deref"})
+			if p.v.Kind == KAddr && p.v.Field != nil && p.v.Src != nil {
+				// *(&x.f) = v is a write of field f of x (a helper that fills in fields through pointers to them)
+				e.emit(p.st, &Event{Kind: EvFieldWrite, Pos: pos, Path: loc, Value: v, Recv: p.v.Src, Field: p.v.Field, Note: "via-pointer"})
+			} else {
+				e.emit(p.st, &Event{Kind: EvFieldWrite, Pos: pos, Path: loc, Value: v, Recv: p.v, Note: "deref"})
+			}
 			out = append(out, p.st)
 		}
 		return out
